@@ -54,7 +54,10 @@ where
         let want = truth.ids_in(d, exts);
         match cache.load_dir::<T>(d) {
             Ok(h) => {
-                let got: Vec<String> = h.read().ids().map(|s| s.to_string()).collect();
+                let mut got: Vec<String> = h.read().ids().map(|s| s.to_string()).collect();
+                if truth.lenient {
+                    got.retain(|g| want.contains(g));
+                }
                 if got != want {
                     let mut sorted = got.clone();
                     sorted.sort();
@@ -77,12 +80,13 @@ where
                         Err(e) => (e.id().to_string(), false),
                     })
                     .collect();
+                let loaded: Vec<(String, bool)> = loaded.into_iter().filter(|x| !truth.lenient || want.contains(&x.0)).collect();
                 let ids_loaded: Vec<String> = loaded.iter().map(|x| x.0.clone()).collect();
                 if ids_loaded != want {
                     bad(rep, "iter-ids-wrong", json!({"dir": d, "got": ids_loaded, "want": want}));
                 }
                 // iter_cached yields precisely the ones that are cached now
-                let cached_now: Vec<String> = g.iter_cached(cache).map(|hh| hh.id().to_string()).collect();
+                let cached_now: Vec<String> = g.iter_cached(cache).map(|hh| hh.id().to_string()).filter(|i| !truth.lenient || want.contains(i)).collect();
                 let want_cached: Vec<String> = loaded.iter().filter(|x| x.1).map(|x| x.0.clone()).collect();
                 if cached_now != want_cached {
                     bad(rep, "iter-cached-wrong", json!({"dir": d, "got": cached_now, "want": want_cached}));
@@ -93,11 +97,14 @@ where
         // same through the single-threaded cache: nothing is cached there yet
         match local.load_dir::<T>(d) {
             Ok(h) => {
-                let got: Vec<String> = h.read().ids().map(|s| s.to_string()).collect();
+                let mut got: Vec<String> = h.read().ids().map(|s| s.to_string()).collect();
+                if truth.lenient {
+                    got.retain(|g| want.contains(g));
+                }
                 if got != want {
                     bad(rep, "directory-ids-wrong-local-cache", json!({"dir": d, "got": got, "want": want}));
                 }
-                let n = h.read().iter_cached(local).count();
+                let n = h.read().iter_cached(local).filter(|hh| !truth.lenient || want.contains(&hh.id().to_string())).count();
                 let already: usize = want.iter().filter(|i| local.contains::<T>(i)).count();
                 if n != already {
                     bad(rep, "iter-cached-wrong", json!({"dir": d, "got": n, "want": already, "cache": "local"}));
@@ -111,6 +118,10 @@ where
             Ok(h) => {
                 let mut got: Vec<String> = h.read().ids().map(|s| s.to_string()).collect();
                 got.sort();
+                let listed = got.len();
+                if truth.lenient {
+                    got.retain(|g| want_rec.contains(g));
+                }
                 if got != want_rec {
                     let gs: BTreeSet<&String> = got.iter().collect();
                     let ws: BTreeSet<&String> = want_rec.iter().collect();
@@ -120,7 +131,7 @@ where
                     bad(rep, clause, json!({"dir": d, "missing": missing, "unexpected": extra, "got_len": got.len(), "want_len": want_rec.len()}));
                 }
                 let n = h.read().iter(cache).count();
-                if n != got.len() {
+                if n != listed {
                     bad(rep, "iter-ids-wrong", json!({"dir": d, "recursive": true, "got": n, "want": got.len()}));
                 }
             }
@@ -178,6 +189,9 @@ pub fn check_dirs(rep: &mut Report, prop: &str, src: DynSrc, truth: &Truth, kind
             Ok(h) => {
                 let mut got: Vec<String> = h.read().ids().map(|s| s.to_string()).collect();
                 got.sort();
+                if truth.lenient {
+                    got.retain(|g| want.contains(g));
+                }
                 if got != want {
                     rep.violation(
                         "unreadable-subdirectory",
